@@ -1,1 +1,35 @@
-fn main(){}
+// Emits one monomorphic call per point of the const-generic grid (C03a).
+use std::io::Write;
+fn main() {
+    let out = std::path::PathBuf::from(std::env::var("OUT_DIR").unwrap()).join("grid.rs");
+    let mut f = std::fs::File::create(out).unwrap();
+    let wide = std::env::var("BFSWEEP_WIDE").is_ok();
+    writeln!(f, "pub fn run_const_grid(st: &mut Stats) {{").unwrap();
+    let mut n_inst = 0usize;
+    for shift in 0..8usize {
+        for w in 1..=64usize {
+            let bytes = (shift + w + 7) / 8;
+            // minimal storage, field in the first byte; 16-byte storage, field at first and last position
+            let mut points: Vec<(usize, usize)> = vec![(bytes, shift), (16, shift), (16, (16 - bytes) * 8 + shift)];
+            if wide {
+                for n in bytes..=9 {
+                    for start in 0..=(n - bytes) {
+                        points.push((n, start * 8 + shift));
+                    }
+                }
+            }
+            points.sort();
+            points.dedup();
+            for (n, off) in points {
+                if off + w <= n * 8 && n <= 16 {
+                    writeln!(f, "    check_const::<{n}, {off}, {w}>(st);").unwrap();
+                    n_inst += 1;
+                }
+            }
+        }
+    }
+    writeln!(f, "}}\npub const CONST_INSTANTIATIONS: usize = {n_inst};").unwrap();
+    println!("cargo:rerun-if-changed=build.rs");
+    println!("cargo:rerun-if-env-changed=BFSWEEP_WIDE");
+    println!("cargo:rerun-if-changed=/repo/bindgen/codegen/bitfield_unit.rs");
+}
